@@ -273,6 +273,98 @@ class CachedGuardStream(Stream):
                 % __import__('json').dumps(c))
 
 
+class ExtendedInquiryStream(Stream):
+    """inquiries that carry more than the four standard elements (an Inquiry subclass with a `tenant` attribute, which a
+    caller-defined rule reads): outside the model's inquiry type, so only the statement's own clause judges - a guard
+    with the decision cache answers exactly as an uncached guard over the same storage does at that moment"""
+    name = 'inquiries_with_extra_state'
+    oracle_only = True
+    oracle_complete = True
+    rule = ('an Inquiry subclass with an extra attribute and a caller-defined rule that reads it; two policies that '
+            'separate the tenants; histories of asks (equal standard elements, different tenants, repeats) and '
+            'mutations through the cached guard\'s storage; capacities None/1/2/256 and a user-supplied back-end. '
+            'No model evaluation: every answer of the cached guard must equal the answer of an uncached Guard over '
+            'the same storage asked at that moment')
+
+    def generate(self, rng, tier):
+        n = 120 if tier == 'quick' else 1500
+        for i in range(n):
+            tenants = rng.sample(['acme', 'evil', 'corp', '', None], rng.choice([2, 3]))
+            ops = []
+            for _ in range(rng.randint(3, 14)):
+                r = rng.random()
+                if r < 0.7:
+                    ops.append(['ask', rng.choice(tenants)])
+                elif r < 0.85:
+                    ops.append(['add', rng.choice(tenants), rng.choice(['allow', 'deny'])])
+                else:
+                    ops.append(['delete', rng.choice(tenants)])
+            yield {'tenants': tenants, 'ops': ops, 'cap': rng.choice([None, 1, 2, 256]), 'custom': i % 4 == 3}
+
+    def emit(self, c):
+        return ''
+
+    def impl(self, c):
+        import vakt
+        from vakt.cache import create_cached_guard
+        from vakt.guard import Guard, Inquiry
+        from vakt.rules.logic import Any
+        from vakt.checker import RulesChecker
+        from vakt.storage.memory import MemoryStorage
+        from ..customrules import TenantIs
+
+        class TenantInquiry(Inquiry):
+            def __init__(self, tenant=None, **kw):
+                super().__init__(**kw)
+                self.tenant = tenant
+
+        st0 = MemoryStorage()
+        st0.add(vakt.Policy('p-' + str(c['tenants'][0]), effect='allow', subjects=[Any()], resources=[Any()],
+                            actions=[Any()], context={'t': TenantIs(c['tenants'][0])}))
+        if c.get('custom'):
+            guard, st, cache = create_cached_guard(st0, RulesChecker(), cache=custom_backend())
+        else:
+            guard, st, cache = create_cached_guard(st0, RulesChecker(), maxsize=c['cap'])
+        out = []
+        for op in c['ops']:
+            if op[0] == 'ask':
+                def q():
+                    return TenantInquiry(tenant=op[1], subject='s', action='a', resource='r', context={'t': 1})
+                try:
+                    a = guard.is_allowed(q())
+                except Exception as e:  # noqa
+                    a = 'RAISED:' + type(e).__name__
+                b = Guard(st0, RulesChecker()).is_allowed(q())
+                out.append('%s/%s' % (a, b))
+            elif op[0] == 'add':
+                try:
+                    st.add(vakt.Policy('p-' + str(op[1]), effect=op[2], subjects=[Any()], resources=[Any()],
+                                       actions=[Any()], context={'t': TenantIs(op[1])}))
+                    out.append('added')
+                except Exception as e:  # noqa
+                    out.append('add:' + type(e).__name__)
+            else:
+                st.delete('p-' + str(op[1]))
+                out.append('deleted')
+        return ' '.join(out)
+
+    def oracle(self, c, obs):
+        for k, part in enumerate(obs.split(' ')):
+            if '/' in part:
+                a, b = part.split('/')
+                if a != b:
+                    return ('op %d: the cached guard answered %s, an uncached guard over the same storage answers %s '
+                            '(inquiries that differ only in the extra attribute)' % (k, a, b))
+        return None
+
+    def nontrivial(self, c, obs):
+        return 'True/True' in obs and 'False/False' in obs
+
+    def describe(self, c):
+        return ('import json; from harness.checks.c11 import ExtendedInquiryStream; '
+                'print(ExtendedInquiryStream().impl(json.loads(%r)))' % __import__('json').dumps(c))
+
+
 TRUSTED = [
     'Coq 8.16.1 kernel + vm_compute (no native_compute)',
     'Model/AllowCache.v (create_cached_guard = observable storage + guard + cache back-end, invalidation on '
@@ -288,7 +380,7 @@ ASSUME = ['inquiries of the pool are hashable through their canonical content (C
 
 
 def main(argv):
-    return run_check('C11', [CachedGuardStream()], argv, trusted_base=TRUSTED, assumptions=ASSUME,
+    return run_check('C11', [CachedGuardStream(), ExtendedInquiryStream()], argv, trusted_base=TRUSTED, assumptions=ASSUME,
                      translated=('observable', 'subject', 'guard', 'memory', 'pin_inquiry', 'pin_util'))
 
 
